@@ -8,6 +8,10 @@ CHECKS = {
          'sampled histories and schedules: evidence, not proof; CPython GIL semantics; canonical snapshots walk the library\'s _props metadata', '6 (C02)'),
  'C03': ('fault_enumeration', 'per sampled transaction history every crash point of every transaction body is injected (exception after each API step), plus raising pre_commit_handler, API-rejected calls and nested-path write-through probes on every handed-out object; MDIB snapshot + lookup audit must equal the pre-state',
          'crash points = boundaries between API calls of the generated body; histories are sampled; use of transaction objects after the with-block is out of scope', '6 (C03)'),
+ 'C06': ('exploration', 'seeded search over provider histories x delivery fault sequences (drop / duplicate / delay past later ones / replay by a store-and-forward middlebox, GetMdib racing with commits, SequenceId/InstanceId change) x schedules; invariants after every operation and refinement against the provider history at recovery points',
+         'faults are sampled, not enumerated; the middlebox acknowledges every notification (provider-visible failures are C08); equality only demanded after faults stopped', '6 (C06)'),
+ 'C11': ('exploration', 'seeded operation sequences on a MultiKeyLookup (table machine, 1-3 tasks) and on the provider MDIB tables with indexed-attribute changes and rejected operations; every index recomputed from the stored objects after each operation (consumer and subscription tables are audited in the C01/C06/C08 runs)',
+         'sampled sequences; add_index on a non-empty table is not part of the claimed surface (the MDIB creates indices on empty tables)', '6 (C11)'),
 }
 TECH = 'deterministic simulation with fault injection (seeded scheduler + virtual clock + simulated network, fork per run, ddmin replay)'
 
